@@ -14,7 +14,7 @@ class Laid:
         self.nfilechanges = 0
         self.inside_markers = []  # token indices directly preceded by a linemarker
         self.ncollisions = 0
-        self.extra = {}  # further token starts: position -> index of the owning token (pragma strings)
+        self.extra = {}  # further token starts: position -> indices of the owning tokens (pragma strings; two pragmas can be re-based onto the same line)
 
 
 WS = [" ", " ", "  ", "\t", "\n", "\n  ", " \n\t", "\n\n", " \t "]
@@ -61,7 +61,7 @@ def lay_out(toks, c, style="random", filename="f.c", marker_p=0.08, file_change=
             rest = t.s[len("#pragma") :]
             if rest.strip(" \t"):
                 lead_ws = len(rest) - len(rest.lstrip(" \t"))
-                out.extra[(st["file"], st["line"], st["col"] + len("#pragma") + lead_ws)] = len(out.pos) - 1
+                out.extra.setdefault((st["file"], st["line"], st["col"] + len("#pragma") + lead_ws), []).append(len(out.pos) - 1)
             emit(t.s)
             emit("\n")
             prev = None
